@@ -4,30 +4,9 @@
    EVERY immediate. *)
 From Coq Require Import ZArith List Bool Arith Lia String DecimalString.
 From MV Require Import Base.Field Core.Op Core.Rpo Vm.Pure Vm.PureProps Gen.AsmGen Asm.Instr
-  Asm.StackInstr Asm.FieldInstr Asm.U32Instr.
+  Asm.SpecDefs Asm.StackInstr Asm.FieldInstr Asm.U32Instr.
 Import ListNotations.
 Open Scope Z_scope.
-
-Definition zstr (v : Z) : string := NilZero.string_of_uint (N.to_uint (Z.to_N v)).
-
-Definition push_felt (v : Z) : list op :=
-  if v =? 0 then [Pad] else if v =? 1 then [Pad; Incr] else [Push v].
-
-(* immediates are parsed as field elements: v ranges over 0 <= v < P *)
-Definition c_add (v : Z) : list op :=
-  if v =? 0 then [Noop] else if v =? 1 then [Incr] else if v =? 2 then [Incr; Incr] else [Push v; Add].
-Definition c_sub (v : Z) : list op := if v =? 0 then [Noop] else [Push (fneg v); Add].
-Definition c_mul (v : Z) : list op :=
-  if v =? 0 then [Drop; Pad] else if v =? 1 then [Noop] else [Push v; Mul].
-Definition c_div (v : Z) : option (list op) :=
-  if v =? 0 then None else if v =? 1 then Some [Noop] else Some [Push (finv v); Mul].
-Definition c_eq (v : Z) : list op := if v =? 0 then [Eqz] else [Push v; OpEq].
-Definition c_neq (v : Z) : list op := if v =? 0 then [Eqz; Not] else [Push v; OpEq; Not].
-Definition c_push (v : Z) : list op := push_felt v.
-Definition c_u32 (o : op) (wrapping : bool) (v : Z) : list op :=
-  (push_felt v ++ [o] ++ (if wrapping then [Drop] else []))%list.
-Definition c_u32div (tail : list op) (v : Z) : option (list op) :=
-  if v =? 0 then None else Some (push_felt v ++ [U32div] ++ tail)%list.
 
 Definition opt_ops_eqb (a b : option (list op)) : bool :=
   match a, b with
@@ -67,6 +46,7 @@ Lemma imm_table_agrees :
   check "eq" (fun v => Some (c_eq v)) felt_grid &&
   check "neq" (fun v => Some (c_neq v)) felt_grid &&
   check "push" (fun v => Some (c_push v)) felt_grid &&
+  check "exp" (fun v => Some (c_exp v)) felt_grid &&
   check "u32wrapping_add" (fun v => Some (c_u32 U32add true v)) u32_grid &&
   check "u32overflowing_add" (fun v => Some (c_u32 U32add false v)) u32_grid &&
   check "u32wrapping_sub" (fun v => Some (c_u32 U32sub true v)) u32_grid &&
